@@ -158,74 +158,78 @@ inductive Tok where
 def isIdentStart (c : Char) : Bool := c.isAlpha || c == '_'
 def isIdentChar (c : Char) : Bool := c.isAlphanum || c == '_'
 def isNumStart (c : Char) : Bool := c.isDigit || c == '.' || c == '+' || c == '-'
-def isDigitsChar (c : Char) : Bool := c.isDigit
+def isDigitsChar (c : Char) : Bool := ['0', '1', '2', '3', '4', '5', '6', '7', '8', '9'].contains c
+def isSign (c : Char) : Bool := c == '+' || c == '-'
+def isExpMark (c : Char) : Bool := c == 'e' || c == 'E'
 
-/-- `digits` then the rest -/
-def spanDigits (cs : List Char) : List Char × List Char := cs.span isDigitsChar
+/-- longest prefix satisfying `p`, and the rest -/
+def spanP (p : Char → Bool) : List Char → List Char × List Char
+  | [] => ([], [])
+  | c :: cs => if p c then ((c :: (spanP p cs).1), (spanP p cs).2) else ([], c :: cs)
+
+/-- optional sign -/
+def takeSign : List Char → List Char × List Char
+  | [] => ([], [])
+  | c :: r => if isSign c then ([c], r) else ([], c :: r)
 
 /-- exponent part after the marker `e`: `[+-] digits`; `pre` is the literal text so far -/
 def lexExpTail (pre : List Char) (e : Char) (r : List Char) : Option (List Char × List Char) :=
-  let (esign, r) : List Char × List Char := match r with
-    | '+' :: r' => (['+'], r')
-    | '-' :: r' => (['-'], r')
-    | _ => ([], r)
-  let (ed, r') := spanDigits r
-  if ed.isEmpty then none else some (pre ++ e :: esign ++ ed, r')
+  let sg := takeSign r
+  let ds := spanP isDigitsChar sg.2
+  if ds.1.isEmpty then none else some (pre ++ e :: sg.1 ++ ds.1, ds.2)
 
 /-- mantissa `digits [. [digits]] | . digits` -/
 def lexMantissa (cs : List Char) : Option (List Char × List Char) :=
-  let (ip, cs) := spanDigits cs
-  match cs with
-  | '.' :: r =>
-    let (fp, r') := spanDigits r
-    if ip.isEmpty && fp.isEmpty then none else some (ip ++ '.' :: fp, r')
-  | _ => if ip.isEmpty then none else some (ip, cs)
+  let ip := spanP isDigitsChar cs
+  match ip.2 with
+  | [] => if ip.1.isEmpty then none else some (ip.1, [])
+  | c :: r =>
+    if c == '.' then
+      let fp := spanP isDigitsChar r
+      if ip.1.isEmpty && fp.1.isEmpty then none else some (ip.1 ++ '.' :: fp.1, fp.2)
+    else if ip.1.isEmpty then none else some (ip.1, c :: r)
 
 /-- lex one number literal of the documented form
     `[+-] (digits [. [digits]] | . digits) [(e|E) [+-] digits]`; returns literal text and rest -/
 def lexNumber (cs : List Char) : Option (List Char × List Char) :=
-  let (sign, cs) : List Char × List Char := match cs with
-    | '+' :: r => (['+'], r)
-    | '-' :: r => (['-'], r)
-    | _ => ([], cs)
-  match lexMantissa cs with
+  let sg := takeSign cs
+  match lexMantissa sg.2 with
   | none => none
-  | some (m, cs) =>
-    match cs with
-    | 'e' :: r => lexExpTail (sign ++ m) 'e' r
-    | 'E' :: r => lexExpTail (sign ++ m) 'E' r
-    | _ => some (sign ++ m, cs)
+  | some (m, rest) =>
+    match rest with
+    | [] => some (sg.1 ++ m, [])
+    | c :: r => if isExpMark c then lexExpTail (sg.1 ++ m) c r else some (sg.1 ++ m, c :: r)
 
-/-- the lexer; `fuel` bounds the number of tokens (the input length suffices) -/
+def punctOf (c : Char) : Option Tok :=
+  if c == '(' then some .lpar else if c == ')' then some .rpar else if c == '[' then some .lbr
+  else if c == ']' then some .rbr else if c == ',' then some .comma else if c == '=' then some .eq else none
+
+/-- the lexer; `fuel` bounds the number of steps (the input length + 1 suffices) -/
 def lexAux : Nat → List Char → Option (List Tok)
-  | 0, [] => some []
+  | _, [] => some []
   | 0, _ :: _ => none
-  | _ + 1, [] => some []
   | fuel + 1, c :: cs =>
     if c == ' ' then lexAux fuel cs
-    else if c == '(' then (lexAux fuel cs).map (Tok.lpar :: ·)
-    else if c == ')' then (lexAux fuel cs).map (Tok.rpar :: ·)
-    else if c == '[' then (lexAux fuel cs).map (Tok.lbr :: ·)
-    else if c == ']' then (lexAux fuel cs).map (Tok.rbr :: ·)
-    else if c == ',' then (lexAux fuel cs).map (Tok.comma :: ·)
-    else if c == '=' then (lexAux fuel cs).map (Tok.eq :: ·)
-    else if isIdentStart c then
-      let (w, r) := (c :: cs).span isIdentChar
-      (lexAux fuel r).map (Tok.ident (String.ofList w) :: ·)
-    else if isNumStart c then
-      match lexNumber (c :: cs) with
-      | none => none
-      | some (w, r) =>
-        -- a literal must not run into an identifier character (`1x`, `1e`): Python rejects that too
-        match r with
-        | d :: _ => if isIdentChar d || d == '.' then none else (lexAux fuel r).map (Tok.num (String.ofList w) :: ·)
-        | [] => (lexAux fuel r).map (Tok.num (String.ofList w) :: ·)
-    else none
+    else match punctOf c with
+      | some t => (lexAux fuel cs).map (t :: ·)
+      | none =>
+        if isIdentStart c then
+          let w := spanP isIdentChar (c :: cs)
+          (lexAux fuel w.2).map (Tok.ident (String.ofList w.1) :: ·)
+        else if isNumStart c then
+          match lexNumber (c :: cs) with
+          | none => none
+          | some (w, r) =>
+            -- a literal must not run into an identifier character or a second dot (`1x`, `1.2.3`): Python rejects that too
+            match r with
+            | d :: _ =>
+              if isIdentChar d || d == '.' then none else (lexAux fuel r).map (Tok.num (String.ofList w) :: ·)
+            | [] => (lexAux fuel r).map (Tok.num (String.ofList w) :: ·)
+        else none
 
+/-- a leading blank is an IndentationError in `ast.parse` -/
 def lex (s : List Char) : Option (List Tok) :=
-  match s with
-  | ' ' :: _ => none     -- leading blank: IndentationError in ast.parse
-  | _ => lexAux (s.length + 1) s
+  if s.head? == some ' ' then none else lexAux (s.length + 1) s
 
 /-- numbers separated by commas up to the closing token `close`; returns the elements, whether a comma was seen,
     and the rest -/
@@ -280,11 +284,13 @@ def parseToks (ts : List Tok) : Option (Call String) :=
     | _ => none
   | _ => none
 
-/-- `parse_priors` on the documented syntax (keyword arguments only) -/
-def parsePrior (s : String) : Option (Call String) :=
-  match lex s.toList with
+/-- `parse_priors` on the documented syntax (keyword arguments only), on the characters of the text -/
+def parseChars (cs : List Char) : Option (Call String) :=
+  match lex cs with
   | none => none
   | some ts => parseToks ts
+
+def parsePrior (s : String) : Option (Call String) := parseChars s.toList
 
 /-! printing -/
 
@@ -307,19 +313,25 @@ def printArgs : List (String × ArgVal String) → List Tok
 
 def printToks (c : Call String) : List Tok := .ident c.fn :: .lpar :: printArgs c.args
 
-def tokText : Tok → String
-  | .ident s => s
-  | .num s => s
-  | .lpar => "("
-  | .rpar => ")"
-  | .lbr => "["
-  | .rbr => "]"
-  | .comma => ","
-  | .eq => "="
+/-- text of one token; a comma is followed by one blank -/
+def tokChars : Tok → List Char
+  | .ident s => s.toList
+  | .num s => s.toList
+  | .lpar => ['(']
+  | .rpar => [')']
+  | .lbr => ['[']
+  | .rbr => [']']
+  | .comma => [',', ' ']
+  | .eq => ['=']
 
-/-- canonical text of a call: tokens joined without blanks except one after each comma -/
-def printPrior (c : Call String) : String :=
-  String.join ((printToks c).map (fun t => if t = Tok.comma then ", " else tokText t))
+def render : List Tok → List Char
+  | [] => []
+  | t :: ts => tokChars t ++ render ts
+
+def printChars (c : Call String) : List Char := render (printToks c)
+
+/-- canonical text of a call -/
+def printPrior (c : Call String) : String := String.ofList (printChars c)
 
 /-! construction from a parsed call (`create_prior`) -/
 
